@@ -6,7 +6,7 @@ the store, the queue and the event store without any change to the repository.
 Harness side connections use `raw_connect` (the original function).
 
 Hooks (all optional, all process-global, set by the engines):
-  stmt_hook(conn, sql)          before every statement and before COMMIT / ROLLBACK
+  stmt_hook(conn, sql, args)    before every statement and before COMMIT / ROLLBACK
                                 (yield point; may raise = failpoint)
   commit_hook(conn)             after a commit that ended a non-empty transaction
   locked_hook(conn, sql, exc)   on "database is locked": return True to retry
@@ -50,7 +50,7 @@ class VConn(sqlite3.Connection):
     def execute(self, sql, *args):  # type: ignore[override]
         h = H.stmt_hook
         if h is not None:
-            h(self, sql)
+            h(self, sql, args)
         H.statements += 1
         while True:
             try:
@@ -66,7 +66,7 @@ class VConn(sqlite3.Connection):
     def commit(self):  # type: ignore[override]
         h = H.stmt_hook
         if h is not None:
-            h(self, "COMMIT")
+            h(self, "COMMIT", ())
         was = self.in_transaction
         while True:
             try:
